@@ -9,6 +9,7 @@ import (
 	"fmt"
 	"hash/fnv"
 	"os"
+	"os/exec"
 	"runtime"
 	"runtime/debug"
 	"strconv"
@@ -174,6 +175,32 @@ func TestVsim(t *testing.T) {
 	step := int(envInt("VSIM_STEP", 1))
 	deadline := time.Now().Add(time.Duration(envInt("VSIM_WALL_S", 3600)) * time.Second)
 	fseed := mix(base, strHash(family+"/"+mode))
+	if count > 1 && os.Getenv("VSIM_GENONLY") == "" && os.Getenv("VSIM_INPROC") == "" {
+		// One OS process per run: a run in a process that has already executed another one is
+		// NOT the same execution as in a fresh process (one-time initialisation in gobgp and its
+		// dependencies passes yield points only the first time, the heap layout differs), and a
+		// replay file is always executed in a fresh process.  So every run of a batch gets a
+		// fresh process too; it is also faster than collecting the garbage between runs.
+		f.Close()
+		for i := 0; i < count; i++ {
+			idx := from + i*step
+			if time.Now().After(deadline) {
+				break
+			}
+			cmd := exec.Command(os.Args[0], "-test.run", "^TestVsim$", "-test.timeout", "0")
+			cmd.Env = append(os.Environ(), fmt.Sprintf("VSIM_FROM=%d", idx), "VSIM_COUNT=1")
+			cmd.Stdout, cmd.Stderr = os.Stdout, os.Stderr
+			if err := cmd.Run(); err != nil {
+				if ee, ok := err.(*exec.ExitError); ok && ee.ExitCode() > 0 {
+					os.Exit(ee.ExitCode())
+				}
+				fmt.Fprintf(os.Stderr, "vsim worker: child for index %d: %v\n", idx, err)
+				os.Exit(7)
+			}
+		}
+		fmt.Fprintf(os.Stderr, "vsim worker done\n")
+		return
+	}
 	for i := 0; i < count; i++ {
 		idx := from + i*step
 		if time.Now().After(deadline) {
